@@ -135,6 +135,16 @@ def run_case(case, cnt=None, root=None):
             main_lines[b:b] = ["\t.include \"drv/outer7.mac\"", "\t.even"]
             host["included"] += ["same7.mac", "drv/same7.mac", "drv/outer7.mac"]
             where = "drv/same7.mac"
+        if len(host["linked"]) >= 2 and rnd.random() < 0.1 and "drv/same7.mac" not in host["texts"]:
+            # a diagnostic with positions in TWO files: a name exported by the first linked file and again, further down the link
+            # order, by another one; the culprit (and the first position reported) is the second declaration
+            first_lines = host["texts"][host["linked"][0]]
+            a = rnd.choice(clicase.top_level_slots(first_lines))
+            first_lines[a:a] = [rnd.choice(["dupx9:: .word 0", "dupx9 == 5", "\tdupx9::\tnop"]), "\t.even"]
+            f = {"kind": "dup-export-two-files", "lines": [indent + "dupx9:: nop"], "ident": "duplicate-symbol", "sev": "error",
+                 "T": (0, len(indent)), "S": (0, len(indent)), "accept": ("T",)}
+            where = host["linked"][-1]
+            case = dict(case, cli=True)
         rec = clicase.plant(host, rnd, f, where=where)
         fileclass = "main" if where == host["linked"][0] else ("linked" if where in host["linked"] else "included")
         tag = f"{case['fault']}|{fileclass}|{'tab' if chr(9) in indent else ('space' if indent else 'none')}"
